@@ -74,10 +74,11 @@ type valueIn struct {
 	Version int    `json:"version"`
 	Network int    `json:"network"`
 	DataHex string `json:"data_hex"`
+	DataNil bool   `json:"data_is_a_nil_slice,omitempty"`
 }
 
 func in(p string, v, n int, d []byte) valueIn {
-	return valueIn{fmt.Sprintf("%q", p), v, n, hex.EncodeToString(d)}
+	return valueIn{fmt.Sprintf("%q", p), v, n, hex.EncodeToString(d), d == nil}
 }
 
 func encode(p string, v, n int, d []byte) (out string, panicked bool) {
@@ -157,7 +158,11 @@ func checkValue(p string, v, n int, d []byte) string {
 		return ""
 	}
 	if s == "ERROR" {
-		violate("EncodeBIP276/in-range-gives-ERROR", "", in(p, v, n, d))
+		what := ""
+		if d == nil {
+			what = "Data is a nil slice: the empty payload"
+		}
+		violate("EncodeBIP276/in-range-gives-ERROR", what, in(p, v, n, d))
 		return s
 	}
 	// layout as specified: version first, then network
@@ -291,10 +296,15 @@ func main() {
 						checkValue(p, v, n, payload[l])
 						goPairs++
 					}
+					checkValue(p, v, n, nil)
 				}
 			} else {
 				k := v*255 + n + int(c.Seed)
-				checkValue(prefixes[k%2], v, n, payload[payloadLens[(k/2)%4]])
+				d := payload[payloadLens[(k/2)%4]]
+				if len(d) == 0 && (k/8)%2 == 1 {
+					d = nil // the empty payload, as a zero BIP276.Data
+				}
+				checkValue(prefixes[k%2], v, n, d)
 				goPairs++
 			}
 		}
@@ -508,6 +518,9 @@ func main() {
 	histories(r)
 	concurrent(r)
 
-	c.Stats.Rule = "Go side: all 65 025 (version, network) pairs (quick: prefix script/template and payload length {0,1,11,300} rotate with the pair; thorough: every pair x 2 prefixes x 4 lengths) with round-trip, layout and validate predicates; every payload length 0..700 x 2 prefixes; every single-byte substitution (all 255 other values), deletion and insertion at every position of ten valid encodings, every truncation of one; every single-byte substitution in the hex part of the ten encodings with the checksum recomputed over the text as written. Model side (cases counted here): 16x16 boundary field values + 1300 seeded random pairs (thorough: all pairs x 2 prefixes), payload lengths {0,1,11,300} x 2 prefixes and 59 further lengths (0..24, around 32/48/56/64/118/128/237/256/512), out-of-range fields {0,256,-1,257,-255,-256,2^31,-2^40,1000}, 18 unusual prefixes (colons, non-UTF-8, newline, empty), two substitutions + indels per position of the ten encodings, truncations, 40 hand-made adversarial texts (several colons, letter case, zero fields, odd data length). distinct = distinct (prefix,version,network,data) for encoder cases / distinct text for decoder and validate cases; non-trivial = encoder output is not ERROR / text has a colon and at least 14 characters" + concurrencyRule
+	// 8. memory the caller owns: payloads that are windows of a larger buffer, results of the decoder, nil / empty (memory.go)
+	memory(r)
+
+	c.Stats.Rule = "Go side: all 65 025 (version, network) pairs (quick: prefix script/template and payload length {0,1,11,300} rotate with the pair; thorough: every pair x 2 prefixes x 4 lengths) with round-trip, layout and validate predicates; every payload length 0..700 x 2 prefixes; every single-byte substitution (all 255 other values), deletion and insertion at every position of ten valid encodings, every truncation of one; every single-byte substitution in the hex part of the ten encodings with the checksum recomputed over the text as written. Model side (cases counted here): 16x16 boundary field values + 1300 seeded random pairs (thorough: all pairs x 2 prefixes), payload lengths {0,1,11,300} x 2 prefixes and 59 further lengths (0..24, around 32/48/56/64/118/128/237/256/512), out-of-range fields {0,256,-1,257,-255,-256,2^31,-2^40,1000}, 18 unusual prefixes (colons, non-UTF-8, newline, empty), two substitutions + indels per position of the ten encodings, truncations, 40 hand-made adversarial texts (several colons, letter case, zero fields, odd data length). distinct = distinct (prefix,version,network,data) for encoder cases / distinct text for decoder and validate cases; non-trivial = encoder output is not ERROR / text has a colon and at least 14 characters" + concurrencyRule + memoryRule
 	c.Finish()
 }
